@@ -240,8 +240,8 @@ Definition c01ng_class_name (k : c01ng_class) : str :=
   | N_kwargs_shape => L "kwargs-shape"
   | N_default_then_none => L "default-forces-later-defaults"
   | N_return_after_default => L "return-after-default"
-  | N_type_unparsed         (* a default under a type that the model cannot read as an expression: _infer_default parses the type (SyntaxError for a non-expression) *)
-| N_code_default_untyped => L "code-default-drops-type"
+  | N_type_unparsed => L "default-under-unparsed-type"
+  | N_code_default_untyped => L "code-default-drops-type"
   | N_return_partial => L "return-partial"
   | N_google_return_only => L "google-return-only"
   end.
